@@ -1003,8 +1003,16 @@ DIRECTED = {
     _T + '<body><div><p begin="' + "39" * 180 + 's" end="' + "39" * 180 + '.5s">x<set begin="' + "7" * 320 + 'h" tts:color="red"/></p></div></body></tt>',
     _T.replace(">", ' ttp:frameRate="30">') + '<body><div><p begin="' + "8" * 320 + 'f">x</p></div></body></tt>',
     _T + '<body><set><div/></set><div><p><set><span>y</span></set>x</p></div></body></tt>',
+    # reference chains far longer than the interpreter stack: forward, backward, and one reached from a region and an initial
+    _T + '<head><styling>' + "".join(f'<style xml:id="s{i}" style="s{i + 1}" tts:color="red"/>' for i in range(3000)) + '<style xml:id="s3000"/></styling></head><body style="s0"><div><p>x</p></div></body></tt>',
+    _T + '<head><styling><style xml:id="s0" tts:fontWeight="bold"/>' + "".join(f'<style xml:id="s{i + 1}" style="s{i}"/>' for i in range(3000)) + '</styling><layout><region xml:id="r1" style="s3000"/></layout></head>'
+         '<body><div><p region="r1" style="s2999 s3000">x</p></div></body></tt>',
+    _T + '<head><styling>' + "".join(f'<style xml:id="s{i}" style="s{(i + 1) % 2500} s{(i * 7) % 2500}"/>' for i in range(2500)) + '</styling></head><body><div><p style="s1">x</p></div></body></tt>',
   ],
-  "srt": ["1\n00:00:01,000 --> 00:00:02,000\n<font color>x</font>\n", "1\n00:00:01,000 --> 00:00:02,000\n<![ x\n", "1\n00:00:01,000 --> 00:00:02,000\na</b></b></b>b<i>c\n",
+  "srt": ["1\n00:00:01,000 --> 00:00:02,000\n" + "<x>" * 1500 + "y\n", "1\n00:00:01,000 --> 00:00:02,000\n" + "<font size=\"3\">" * 1500 + "y\n",
+          "1\n00:00:01,000 --> 00:00:02,000\n" + "<x></x>" * 1500 + "<b>" * 1500 + "y\n", "1\n00:00:01,000 --> 00:00:02,000\n" + "<font>" * 800 + "<i>" * 800 + "y" + "</i>" * 800 + "\n",
+          "1\n00:00:01,000 --> 00:00:02,000\n" + "{b}{i}{u}" * 600 + "y\n", "1\n00:00:01,000 --> 00:00:02,000\n" + "<b/>" * 1500 + "<x/>" * 1500 + "y\n",
+          "1\n00:00:01,000 --> 00:00:02,000\n<font color>x</font>\n", "1\n00:00:01,000 --> 00:00:02,000\n<![ x\n", "1\n00:00:01,000 --> 00:00:02,000\na</b></b></b>b<i>c\n",
           "1\n00:00:01,000 --> 00:00:02,000\n\n2\n00:00:03,000 --> 00:00:04,000\n\n"],
   "vtt": [_CUE + "</b></b></b></b>\n", _CUE + "</b></b></b>x\n", _CUE + "</b>x\n", _CUE + "</b></b>x\n", _CUE + "</b><b>x\n", _CUE + "</b></b><b>x\n", _CUE + "</b><00:00:01.500>x\n", _CUE + "</b></b><00:00:01.500>x\n",
           _CUE + "<rrt></r><ruby><rt>\nx\n", _CUE + "<rt>x\n", _CUE + "<ruby><ruby>x\n", _CUE + "<b><ruby>x<rt>y</rt></ruby></b>\n", _CUE + "<ruby>a<b>b</b><rt>y</rt></ruby>\n",
@@ -1012,6 +1020,8 @@ DIRECTED = {
           "WEBVTT\n\n00:00:01.000 --> 00:00:02.000 size:" + "9" * 400 + "%\nx\n",
           "WEBVTT\n\n00:01.000 --> 00:20.000\n" + "".join(f"<00:{2 + k % 10:02d}.000>w" for k in range(1100)) + "\n",
           "WEBVTT\n\n00:01.000 --> 00:20.000\n" + "<b><i><u><c.red><lang en><v x>" * 200 + "x\n",
+          "WEBVTT\n\n00:01.000 --> 00:20.000\n" + "<x>" * 1500 + "y\n", "WEBVTT\n\n00:01.000 --> 00:20.000\n" + "<x></x>" * 1500 + "<b>" * 1500 + "y\n",
+          "WEBVTT\n\n00:01.000 --> 00:20.000\n" + "<ruby><rt>" * 800 + "y\n", "WEBVTT\n\n00:01.000 --> 00:20.000\n" + "<c>" * 1500 + "y" + "</c>" * 1500 + "\n",
           "WEBVTT\n\n00:00.040 --> " + "01" * 200 + ":00:00.000\nx\n", "WEBVTT\n\n" + "9" * 330 + ":00:00.000 --> " + "9" * 330 + ":00:00.001\nx\n", "WEBVTT\n\n00:00:01.000 --> 00:00:02.000\n\n00:00:03.000 --> 00:00:04.000\n\n"],
   "scc": [("Scenarist_SCC V1.0\n\n00:00:01:00\t9425 9425 94ad 94ad c1c2\n\n00:00:02:00\t942c 942c 1320 1320\n", None), ("Scenarist_SCC V1.0\n\n00:00:01:00\t9723 9723 c8e9\n", None),
           ("Scenarist_SCC V1.0\n\n00:00:01:00\t9429 9429 9723 9723 c8e9\n", None), ("Scenarist_SCC V1.0\n\n00:00:01:00\t94a1 94a1\n", None),
@@ -1103,13 +1113,19 @@ def _q(v):
 
 GRID_VALUES_QUICK = ["", "foo", "0", "-1", "1e9", "10%", "10% 10%", "1px", "1px 1px", "1px 1px 1px 1px 1px", "1c", "red", "none", "auto", "a b",
                      "16 0", "0 9", "0 1", "1 0", "1000 0", "0s", "1f", "1t", "00:00:01:00", "before 10%", "both 1em", "1em both", "left 10%", ",", "\"\""]
+_N = "9" * 400                  # a number no float holds
+GRID_VALUES_HUGE = [_N, _N + "px", _N + "px 10px", "10px " + _N + "px", _N + "%", _N + "% 10%", "10% " + _N + "%", _N + "c", _N + "em", _N + "rh " + _N + "rw",
+                    _N + " 10", "10 " + _N, _N + " " + _N, "0." + "0" * 400 + "1px", "red " + _N + "px", _N + "px " + _N + "px red", "left " + _N + "px top 1px",
+                    "rgba(" + _N + ",0,0,0)", "#" + "f" * 400, _N + "s", _N + "f", _N + "t", _N + "ms", _N + ":00:00", "00:00:" + _N, "00:00:00:" + _N, "00:00:00." + _N,
+                    _N + "% " + _N + "% " + _N + "% " + _N + "%", "nan", "inf", "-inf", "1e999", "-1e999", "Infinity", "1_0", " 1 ", "1e-999", "nanpx", "infpx", "1e5px"]
+GRID_VALUES_QUICK += GRID_VALUES_HUGE
 
 
 def grid(fmt, quick=True):
   """deterministic families: every attribute x boundary value, every pair of markup tokens, every field x boundary value"""
   out = []
   if fmt == "ttml":
-    values = GRID_VALUES_QUICK if quick else F.BOUNDARY_VALUES
+    values = GRID_VALUES_QUICK if quick else F.BOUNDARY_VALUES + GRID_VALUES_HUGE
     region = '<head><layout><region xml:id="r1" tts:extent="80% 20%" tts:origin="10% 70%"/></layout></head>'
     for name in F.STYLE_NAMES:
       pool = values + (F.STYLE_VALUES[name] if not quick else F.STYLE_VALUES[name][:3] + F.STYLE_VALUES[name][-2:])
@@ -1134,6 +1150,7 @@ def grid(fmt, quick=True):
                     None, f"grid:{name}"))
     tvals = [v for v in F.BOUNDARY_VALUES if re.search(r"\d", v)][:60] if not quick else ["", "foo", "0", "-1s", "1e3s", "0s", "1s", "0.0001s", "1.5f", "1t", "1.5t", "00:00:01", "00:00:01:99",
                                                                                             "99:99:99.999", "00:00:60", "1h", "1d", "10", "9999999999s", "00:00:01.0000001"]
+    tvals = tvals + [v for v in GRID_VALUES_HUGE if v[-1] in "sft" or ":" in v]
     for name in ("begin", "end", "dur"):
       for v in tvals:
         for tc in ("", ' timeContainer="seq"', ' timeContainer="par"'):
@@ -1207,7 +1224,8 @@ def grid(fmt, quick=True):
         b1 = bytearray(tti[:128])
         b1[pos] = v
         out.append((F.gsi_block() + bytes(b1), None, "grid:TTI.TC"))
-    for tf in F.STL_TEXT + [bytes([c]) for c in range(0, 0x20)] + [bytes([c]) for c in range(0x80, 0xA0)] + [bytes([c]) + b"a" for c in range(0xC0, 0xD0)]:
+    for tf in F.STL_TEXT + [bytes([c]) for c in range(0, 0x20)] + [bytes([c]) for c in range(0x80, 0xA0)] + [bytes([c]) + b"a" for c in range(0xC0, 0xD0)] + \
+        [t for c in range(0xC0, 0xD0) for t in (b"caf" + bytes([c]), bytes([c]), b"a" + bytes([c, 0x8A, 0x8A]) + b"b", bytes([c, 0x02]) + b"g", bytes([c, c]), bytes([c]) * 111 + b"\x8f")]:
       for cct in (b"00", b"01", b"02", b"03", b"04"):
         if quick and cct not in (b"00", b"03") and len(tf) == 1:
           continue
